@@ -338,6 +338,8 @@ class SplineGeometry(Geometry):
         if self.rational != other.rational:
             return False
         try:
+            # Both operands must use the same tolerance; otherwise, the comparison would not be symmetric
+            tol = 10 ** (-min(self._precision, other._precision))
             for s, o in zip(self._control_points_size, other._control_points_size):
                 if s != o:
                     return False
@@ -353,7 +355,7 @@ class SplineGeometry(Geometry):
                     return False
                 chk = []
                 for s, o in zip(sk, ok):
-                    tmp = True if abs(s - o) < 10 ** (-self._precision) else False
+                    tmp = True if abs(s - o) < tol else False
                     chk.append(tmp)
                 chk_kv.append(all(chk))
             if not all(chk_kv):
@@ -364,7 +366,7 @@ class SplineGeometry(Geometry):
                     return False
                 chk = []
                 for s, o in zip(sk, ok):
-                    tmp = True if abs(s - o) < 10 ** (-self._precision) else False
+                    tmp = True if abs(s - o) < tol else False
                     chk.append(tmp)
                 chk_ctrlpts.append(all(chk))
             if not all(chk_ctrlpts):
